@@ -1,5 +1,6 @@
 #include "hashmaster.h"
 #include <string.h>
+#include "../../wverif.h"
 /*################################
   哈希算法框架函数
 ################################*/
@@ -36,6 +37,14 @@ void Hashmaster::getStringHash(const u8_t *string, u32_t length,
   reset();
   u32_t nnow = length;
   for (; nnow >= 64; nnow -= 64)
+  WV_LOOP(__CPROVER_assigns(nnow, __CPROVER_object_whole(this), WV_HGHOSTS)
+          __CPROVER_loop_invariant(nnow <= length && ((length - nnow) & 63) == 0)
+          __CPROVER_loop_invariant(WV_TAG_OF(this) == __CPROVER_loop_entry(WV_TAG_OF(this)))
+          __CPROVER_loop_invariant(wv_hl_n == __CPROVER_loop_entry(wv_hl_n) + ((length - nnow) >> 6))
+          __CPROVER_loop_invariant((u64_t)this->totalsize == 8ull * (length - nnow))
+          __CPROVER_loop_invariant((wv_hl_watch >= __CPROVER_loop_entry(wv_hl_n) && wv_hl_watch < wv_hl_n) ==>
+                                   wv_hl_wbyte == string[64 * (wv_hl_watch - __CPROVER_loop_entry(wv_hl_n)) + wv_g])
+          __CPROVER_decreases(nnow))
     getHash(string + (length - nnow));
   getHash(string + (length - nnow), nnow);
   getres(hashres);
